@@ -28,7 +28,7 @@
    CPython does" in both places): bytes.strip = Socket.strip, int(b, 16) = Socket.int16, BytesIO.readline = Reader.upto_lf. *)
 From Coq Require Import ZArith NArith List String Bool.
 From Coq.Strings Require Import Byte.
-From PyRtcm Require Import Base.Bytes Model.Types Model.Reader Model.Socket.
+From PyRtcm Require Import Base.Bytes Base.Dec Model.Types Model.Reader Model.Socket.
 Import ListNotations.
 Open Scope string_scope.
 Open Scope Z_scope.
@@ -65,6 +65,9 @@ Inductive builtin :=
 | BStrip                    (* x.strip() *)
 | BBytesIO                  (* BytesIO(x) *)
 | BMin                      (* min(a, b) on two ints *)
+| BFromBig                  (* int.from_bytes(x, "big") *)
+| BStrOf                    (* str(x) / the f-string piece {x} for an int or a str *)
+| BFmtD (w:nat)             (* the f-string piece {x:0<w>d} for a non-negative int (w = 2, 3) *)
 | BText.                    (* an f-string / string used as message text: parts evaluated, value not modelled *)
 
 Record callsig := { c_name : string; c_kw : list string }.   (* environment callee; names of the keyword arguments, in order *)
@@ -86,7 +89,12 @@ Inductive expr :=
 | ECallM (m:string) (args:list expr)       (* self.m(args) / a static method of the class; keywords resolved by the translator *)
 | ECallX (c:callsig) (args:list expr)      (* a callee of the environment that is a global name *)
 | ECallRef (obj:expr) (meth:string) (args:list expr)   (* obj.meth(args) / obj(args) [meth = ""] where obj evaluates to a VRef *)
-| EExcNew (cls:string) (args:list expr).   (* SomeError(args) *)
+| EExcNew (cls:string) (args:list expr)    (* SomeError(args) *)
+(* a class that overrides __setattr__ (RTCMMessage): every attribute assignment, `self.x = v` included, is a call of that method;
+   [reserved] = the names bound in the class body (methods, properties): dynamic access to those is not modelled *)
+| EGetattrSelf (reserved:list string) (name:expr) (default:option expr)   (* getattr(self, name[, default]) *)
+| ESetattrSelf (reserved:list string) (name v:expr)                       (* setattr(self, name, v)  and  self.<name> = v *)
+| ESuperSetattr (name v:expr).                                            (* super().__setattr__(name, v): object's own, a plain store *)
 
 Inductive target := TVar (x:string) | TSelf (a:string) | TTuple (l:list target).
 
@@ -166,7 +174,8 @@ Definition binop_val (o:binop) (a b:val) : res val :=
   | VUnbound, _ | _, VUnbound => RFail (FUnmodelled "unbound operand")
   | (VBytes _ | VStr _ | VTuple _), VInt _ | VInt _, (VBytes _ | VStr _ | VTuple _) =>
       match o with OMul => RFail (FUnmodelled "sequence repetition") | _ => RExc "TypeError" end
-  | VStr _, VStr _ | VTuple _, VTuple _ => RFail (FUnmodelled "str / tuple operator")
+  | VStr x, VStr y => match o with OAdd => ROk (VStr (x ++ y)) | _ => RExc "TypeError" end
+  | VTuple _, VTuple _ => RFail (FUnmodelled "tuple operator")
   | _, _ => RExc "TypeError"
   end.
 
@@ -197,17 +206,26 @@ Fixpoint mem_val (a:val) (l:list val) : option bool :=
   | x::r => match eq_val x a with Some true => Some true | Some false => mem_val a r | None => None end
   end.
 
+(* needle in hay, on str (code units are bytes here: names, identities, descriptions are ASCII) *)
+Definition str_contains (needle hay:string) : bool :=
+  match String.index 0 needle hay with Some _ => true | None => false end.
 Definition cmp_val (o:cmpop) (a b:val) : res bool :=
   let unm := RFail (FUnmodelled "comparison") in
   match o with
   | CEq => match eq_val a b with Some r => ROk r | None => unm end
   | CNe => match eq_val a b with Some r => ROk (negb r) | None => unm end
-  | CLt => match a, b with VInt x, VInt y => ROk (x <? y) | _, _ => unm end
-  | CLe => match a, b with VInt x, VInt y => ROk (x <=? y) | _, _ => unm end
-  | CGt => match a, b with VInt x, VInt y => ROk (y <? x) | _, _ => unm end
-  | CGe => match a, b with VInt x, VInt y => ROk (y <=? x) | _, _ => unm end
-  | CIn => match b with VTuple l => match mem_val a l with Some r => ROk r | None => unm end | _ => unm end
-  | CNotIn => match b with VTuple l => match mem_val a l with Some r => ROk (negb r) | None => unm end | _ => unm end
+  | CLt => match a, b with VInt x, VInt y => ROk (x <? y) | VStr x, VStr y => ROk (String.ltb x y) | _, _ => unm end
+  | CLe => match a, b with VInt x, VInt y => ROk (x <=? y) | VStr x, VStr y => ROk (String.leb x y) | _, _ => unm end
+  | CGt => match a, b with VInt x, VInt y => ROk (y <? x) | VStr x, VStr y => ROk (String.ltb y x) | _, _ => unm end
+  | CGe => match a, b with VInt x, VInt y => ROk (y <=? x) | VStr x, VStr y => ROk (String.leb y x) | _, _ => unm end
+  | CIn => match b with
+           | VTuple l => match mem_val a l with Some r => ROk r | None => unm end
+           | VStr hay => match a with VStr needle => ROk (str_contains needle hay) | _ => RExc "TypeError" end
+           | _ => unm end
+  | CNotIn => match b with
+              | VTuple l => match mem_val a l with Some r => ROk (negb r) | None => unm end
+              | VStr hay => match a with VStr needle => ROk (negb (str_contains needle hay)) | _ => RExc "TypeError" end
+              | _ => unm end
   | CIs => match b with
            | VNone => match a with VNone => ROk true | VUnbound => unm | _ => ROk false end
            | _ => unm end
@@ -232,6 +250,13 @@ Definition slice_bytes (b:bytes) (lo hi:option Z) : bytes :=
   let h := match hi with Some i => clamp n i | None => n end in
   firstn (h - l) (skipn l b).
 
+(* s[lo:hi] on str, same clamping as for bytes *)
+Definition slice_str (t:string) (lo hi:option Z) : string :=
+  let n := String.length t in
+  let l := match lo with Some i => clamp n i | None => O end in
+  let h := match hi with Some i => clamp n i | None => n end in
+  substring l (h - l) t.
+
 Fixpoint le_acc (l:bytes) : N := match l with [] => 0%N | b::r => (bN b + 256 * le_acc r)%N end.   (* little-endian *)
 
 Definition builtin_val (f:builtin) (args:list val) : res val :=
@@ -253,6 +278,13 @@ Definition builtin_val (f:builtin) (args:list val) : res val :=
   | BStrip, [_] => RFail (FUnmodelled "strip")
   | BBytesIO, [VBytes b] => ROk (VBio b 0)
   | BBytesIO, [_] => RFail (FUnmodelled "BytesIO")
+  | BFromBig, [VBytes b] => ROk (VInt (Z.of_N (be b)))
+  | BFromBig, [_] => RFail (FUnmodelled "int.from_bytes")
+  | BStrOf, [VInt z] => if Z.abs z <? 10 ^ 4300 then ROk (VStr (str_of_Z z)) else RExc "ValueError"   (* CPython's int -> str digit limit *)
+  | BStrOf, [VStr t] => ROk (VStr t)
+  | BStrOf, [_] => RFail (FUnmodelled "str()")
+  | BFmtD w, [VInt z] => if (0 <=? z) && (z <? 10 ^ 4300) then ROk (VStr (fmt_d w (Z.to_N z))) else RFail (FUnmodelled "format of a negative / huge int")
+  | BFmtD _, [_] => RFail (FUnmodelled "format spec d on a non-int")
   | BMin, [VInt a; VInt b] => ROk (VInt (Z.min a b))
   | BMin, [_; _] => RFail (FUnmodelled "min")
   | BText, _ => ROk VText
@@ -360,6 +392,7 @@ Fixpoint eval (e:expr) (s:state) {struct e} : res val * state :=
           | (ROk l, s2) => match eval_opt hi s2 with
                            | (ROk h, s3) => (match va with
                                              | VBytes b => ROk (VBytes (slice_bytes b l h))
+                                             | VStr t => ROk (VStr (slice_str t l h))
                                              | _ => RFail (FUnmodelled "slice of non-bytes") end, s3)
                            | (RExc c, s3) => (RExc c, s3) | (RFail f, s3) => (RFail f, s3) end
           | (RExc c, s2) => (RExc c, s2) | (RFail f, s2) => (RFail f, s2) end
@@ -421,6 +454,54 @@ Fixpoint eval (e:expr) (s:state) {struct e} : res val * state :=
   | EExcNew cls args => match eval_list args s with
                         | (ROk _, s1) => ret (VExc cls) s1
                         | (RExc c, s1) => (RExc c, s1) | (RFail f, s1) => (RFail f, s1) end
+  | EGetattrSelf reserved en ed =>
+      match eval en s with
+      | (ROk (VStr n), s1) =>
+          (* the default is an argument: evaluated before the lookup *)
+          let dflt := match ed with
+                      | None => (ROk None, s1)
+                      | Some d => match eval d s1 with
+                                  | (ROk v, s2) => (ROk (Some v), s2)
+                                  | (RExc c, s2) => (RExc c, s2) | (RFail f, s2) => (RFail f, s2) end
+                      end in
+          match dflt with
+          | (ROk dv, s2) =>
+              if existsb (String.eqb n) reserved then (RFail (FUnmodelled "getattr of a name bound in the class"), s2) else
+              match lookup n (self s2) with
+              | Some v => ret v s2
+              | None => match dv with Some v => ret v s2 | None => (RExc "AttributeError", s2) end
+              end
+          | (RExc c, s2) => (RExc c, s2) | (RFail f, s2) => (RFail f, s2)
+          end
+      | (ROk _, s1) => (RFail (FUnmodelled "getattr name"), s1)
+      | other => other
+      end
+  | ESetattrSelf reserved en ev =>
+      match eval en s with
+      | (ROk (VStr n), s1) =>
+          match eval ev s1 with
+          | (ROk v, s2) =>
+              if existsb (String.eqb n) reserved then (RFail (FUnmodelled "setattr of a name bound in the class"), s2) else
+              match M "__setattr__" with
+              | None => ret VNone (set_self (setattr n v (self s2)) s2)
+              | Some g => let '(r, (a', w')) := g [VStr n; v] (self s2) (world s2) in
+                          (r, {| locals := locals s2; self := a'; world := w' |})
+              end
+          | other => other
+          end
+      | (ROk _, s1) => (RFail (FUnmodelled "setattr name"), s1)
+      | other => other
+      end
+  | ESuperSetattr en ev =>
+      match eval en s with
+      | (ROk (VStr n), s1) =>
+          match eval ev s1 with
+          | (ROk v, s2) => ret VNone (set_self (setattr n v (self s2)) s2)
+          | other => other
+          end
+      | (ROk _, s1) => (RFail (FUnmodelled "setattr name"), s1)
+      | other => other
+      end
   end.
 
 Fixpoint eval_list (l:list expr) (s:state) {struct l} : res (list val) * state :=
